@@ -244,6 +244,29 @@ fn choked<T: std::fmt::Display>(v: T, left: usize) -> String {
     format!("{:?} after {:?}", r.is_ok(), c.got)
 }
 
+/// A sink that, for every chunk it receives, formats another value of the same wrapper family into a
+/// side buffer (a logging writer, a `Display` implemented in terms of another): the formatters are re-entrant.
+struct Nested {
+    got: String,
+    side: String,
+}
+
+impl std::fmt::Write for Nested {
+    fn write_str(&mut self, s: &str) -> std::fmt::Result {
+        use std::fmt::Write;
+        self.got.push_str(s);
+        let _ = write!(self.side, "{}|{}|{}", HumanFloatCount(1234.5), HumanCount(7_654_321), HumanBytes(2048));
+        Ok(())
+    }
+}
+
+fn nested<T: std::fmt::Display>(v: T) -> String {
+    use std::fmt::Write;
+    let mut c = Nested { got: String::new(), side: String::new() };
+    let r = write!(c, "{}", v);
+    format!("{:?} {:?} side {:?}", r.is_ok(), c.got, c.side.len())
+}
+
 /// One formatter call of the history alphabet: label and the call itself.
 fn history_alphabet() -> Vec<(String, Box<dyn Fn() -> String + Send + Sync>)> {
     let mut v: Vec<(String, Box<dyn Fn() -> String + Send + Sync>)> = Vec::new();
@@ -253,6 +276,10 @@ fn history_alphabet() -> Vec<(String, Box<dyn Fn() -> String + Send + Sync>)> {
     v.push(("HumanBytes(123456789) into a sink that fails after 3 characters".into(), Box::new(|| choked(HumanBytes(123_456_789), 3))));
     v.push(("HumanDuration(90 s) into a sink that fails after 1 character".into(), Box::new(|| choked(HumanDuration(Duration::from_secs(90)), 1))));
     v.push(("FormattedDuration(90000 s) into a sink that fails after 3 characters".into(), Box::new(|| choked(FormattedDuration(Duration::from_secs(90_000)), 3))));
+    // calls whose sink formats other values while it is being written to
+    v.push(("HumanFloatCount(1234567.25) into a sink that formats other values for every chunk".into(), Box::new(|| nested(HumanFloatCount(1_234_567.25)))));
+    v.push(("HumanCount(123456789) into a sink that formats other values for every chunk".into(), Box::new(|| nested(HumanCount(123_456_789)))));
+    v.push(("HumanDuration(90 s) into a sink that formats other values for every chunk".into(), Box::new(|| nested(HumanDuration(Duration::from_secs(90))))));
     for x in [0.0f64, -0.0, 1234.5, -1234.5, 0.5, -0.5, 999.9995, f64::NAN, f64::INFINITY, f64::NEG_INFINITY, 1e15, 5e-324] {
         v.push((format!("HumanFloatCount({x:e})"), Box::new(move || format!("{}", HumanFloatCount(x)))));
         v.push((format!("HumanFloatCount({x:e}):.0"), Box::new(move || format!("{:.0}", HumanFloatCount(x)))));
